@@ -278,7 +278,15 @@ func (c *DataplaneView[K, V]) ReplaceAllIter(iter func(func(k K, v V)) error) er
 
 	err := iter(func(k K, v V) {
 		// Figure out if we _want_ it to exist and tee up update/deletion accordingly.
-		if desiredV, desired := c.asDesiredView().Get(k); desired {
+		desiredV, desired := c.asDesiredView().Get(k)
+		if !desired {
+			// The iterator may produce the same key more than once.  If we've already
+			// seen this key and the dataplane value matched, the key now lives only in
+			// newInDPDesired (it has been removed from the old map and its pending
+			// update cleared), so check there before deciding that it is not desired.
+			desiredV, desired = newInDPDesired[k]
+		}
+		if desired {
 			// Record that this key exists in the new copy of the cache.
 			newInDPDesired[k] = v
 
